@@ -1677,7 +1677,7 @@ func resolveIndex(v, index reflect.Value, indexAsStr string) (reflect.Value, err
 		return indirectEface(v.Index(x)), nil
 	case reflect.Struct:
 		if !indexIsStr {
-			return reflect.Value{}, fmt.Errorf("can't use %s (%s, not string) as field name in struct type %s", index, indexAsValue().Type(), v.Type())
+			return reflect.Value{}, fmt.Errorf("can't use %s (%s, not string) as field name in struct type %s", index, getTypeString(indexAsValue()), v.Type())
 		}
 		typ := v.Type()
 		key := indexAsStr
@@ -1724,6 +1724,9 @@ func resolveIndex(v, index reflect.Value, indexAsStr string) (reflect.Value, err
 	case reflect.Map:
 		// If it's a map, attempt to use the field name as a key.
 		indexVal := indexAsValue()
+		if !indexVal.IsValid() {
+			return reflect.Value{}, fmt.Errorf("cannot index map of type %s with nil", v.Type())
+		}
 		if !indexVal.Type().ConvertibleTo(v.Type().Key()) {
 			return reflect.Value{}, fmt.Errorf("can't use %s (%s) as key for map of type %s", indexAsStr, indexVal.Type(), v.Type())
 		}
